@@ -40,8 +40,8 @@ Section Rules.
     - intros H; inversion H; left; split; [reflexivity | left; split; discriminate].
     - destruct cfg_checks_external_range; cbn [andb].
       + destruct (negb _); [intros H; inversion H; right; split; reflexivity |].
-        destruct (o_snell_inv K _ _ _); discriminate.
-      + destruct (o_snell_inv K _ _ _); discriminate.
+        destruct (o_snell_inv K _ _ _); flag_cases; discriminate.
+      + destruct (o_snell_inv K _ _ _); flag_cases; discriminate.
     - intros H; inversion H; left; split; [reflexivity | right; split; reflexivity].
   Qed.
 
@@ -58,7 +58,7 @@ Section Rules.
     unfold beam_of_cfg, set_theta_external.
     destruct (bc_theta_deg b), (bc_theta_ext_deg b); try discriminate.
     - intros H; inversion H; subst; cbn; auto.
-    - flag_cases; try discriminate. destruct (o_snell_inv K _ _ _); try discriminate. intros H; inversion H; subst; cbn; auto.
+    - destruct (o_snell_inv K _ _ _); flag_cases; try discriminate; intros H; inversion H; subst; cbn; auto.
   Qed.
 
   (* ---------------------------------------------------------------------------------------------------------------
@@ -179,39 +179,31 @@ Section Rules.
     (forall b e cs, o_snell_inv K b e cs <> None) /\ (forall b cs, o_snell_ext K b cs <> None) /\
     (forall cs e s p, o_nm_theta K cs e s p <> None) /\ (forall s p cs, o_nm_period K s p cs <> None).
 
-  Lemma beam_of_cfg_no_panic pol b cs : searches_total -> is_panic (beam_of_cfg o K pol b cs) = false.
-  Proof.
-    intros [H1 _]. unfold beam_of_cfg, set_theta_external.
-    destruct (bc_theta_deg b), (bc_theta_ext_deg b); try reflexivity. flag_cases; try reflexivity.
-    specialize (H1 (beam_new o pol (nmul o (bc_phi_deg b) (u_deg o)) (n0 o) (nmul o (bc_wavelength_nm b) (u_nano o))
-                           (nmul o (bc_waist_um b) (u_micro o))) (nmul o n (u_deg o)) cs).
-    destruct (o_snell_inv K _ _ _); [reflexivity | congruence].
-  Qed.
-
-  (* ... and the same PER INPUT: only the oracle calls that THIS configuration makes have to be defined (a signal beyond total
-     internal reflection fails the second clause only when the crystal angle is automatic: finding F7b) *)
   Definition searches_defined_at (c : spdc_cfg num) : Prop :=
-    (forall b e cs, o_snell_inv K b e cs <> None) /\
+    (* once the solver cannot fail (searches_cannot_fail, read off Cost1d::cost) no search can panic: every clause is void *)
+    (searches_cannot_fail = false -> forall b e cs, o_snell_inv K b e cs <> None) /\
     (forall signal, signal_step c = Ok signal ->
        (is_auto (cc_theta_deg (c_crystal c)) = true -> c_pp c = PCOff ->
           (* a signal beyond total internal reflection is an error, not a panic, once the code checks it *)
-          (cfg_checks_total_reflection = false -> o_snell_ext K signal (cfg_cs0 c) <> None) /\
-          (forall e, o_snell_ext K signal (cfg_cs0 c) = Some e ->
+          (cfg_checks_total_reflection = false -> searches_cannot_fail = false -> o_snell_ext K signal (cfg_cs0 c) <> None) /\
+          (searches_cannot_fail = false -> forall e, o_snell_ext K signal (cfg_cs0 c) = Some e ->
                      o_nm_theta K (erase_theta o (cfg_cs0 c)) e signal (cfg_pump c) <> None)) /\
-       (* a period search that finds nothing is an error, not a panic, once the solver cannot fail *)
        (forall a, c_pp c = PCConfig Auto a -> searches_cannot_fail = false -> o_nm_period K signal (cfg_pump c) (cfg_cs0 c) <> None)).
 
   Lemma searches_total_at c : searches_total -> searches_defined_at c.
-  Proof. intros (H1 & H2 & H3 & H4). split; [exact H1 |]. intros signal _. repeat split; intros; auto. Qed.
+  Proof. intros (H1 & H2 & H3 & H4). split; [intros _; exact H1 |]. intros signal _. repeat split; intros; auto. Qed.
 
-  Lemma beam_of_cfg_no_panic' pol b cs : (forall b e cs, o_snell_inv K b e cs <> None) -> is_panic (beam_of_cfg o K pol b cs) = false.
+  Lemma beam_of_cfg_no_panic' pol b cs :
+    (searches_cannot_fail = false -> forall b e cs, o_snell_inv K b e cs <> None) -> is_panic (beam_of_cfg o K pol b cs) = false.
   Proof.
     intros H1. unfold beam_of_cfg, set_theta_external.
-    destruct (bc_theta_deg b), (bc_theta_ext_deg b); try reflexivity. flag_cases; try reflexivity.
-    specialize (H1 (beam_new o pol (nmul o (bc_phi_deg b) (u_deg o)) (n0 o) (nmul o (bc_wavelength_nm b) (u_nano o))
-                           (nmul o (bc_waist_um b) (u_micro o))) (nmul o n (u_deg o)) cs).
-    destruct (o_snell_inv K _ _ _); [reflexivity | congruence].
+    destruct (bc_theta_deg b), (bc_theta_ext_deg b); try reflexivity.
+    destruct (cfg_checks_external_range && _); [reflexivity |].
+    destruct (o_snell_inv K _ _ _) eqn:E; [reflexivity |].
+    destruct searches_cannot_fail; [reflexivity |]. exfalso. exact (H1 eq_refl _ _ _ E).
   Qed.
+  Lemma beam_of_cfg_no_panic pol b cs : searches_total -> is_panic (beam_of_cfg o K pol b cs) = false.
+  Proof. intros [H1 _]. apply beam_of_cfg_no_panic'. intros _. exact H1. Qed.
 
   Theorem no_panic_at c :
     searches_defined_at c ->
@@ -245,10 +237,13 @@ Section Rules.
     assert (Hth : is_panic (theta_step c signal pp) = false).
     { unfold Config.theta_step. destruct (is_auto _) eqn:Hau; [| reflexivity]. destruct (is_pol_off pp) eqn:Hpo; [| reflexivity].
       destruct (Hth0 eq_refl (Hoff pp nf eq_refl Hpo)) as [H2 H3].
-      unfold optimum_theta, ext_defined. destruct (o_snell_ext K _ _) as [e |]; cbn [negb]; rewrite ?andb_false_r, ?andb_true_r.
-      - rewrite Hle. specialize (H3 e eq_refl).
-        destruct (o_nm_theta K _ _ _ _); [reflexivity | congruence].
-      - destruct cfg_checks_total_reflection; [reflexivity | exfalso; apply H2; reflexivity]. }
+      unfold optimum_theta, ext_defined. rewrite Hle.
+      destruct (o_snell_ext K _ _) as [e |] eqn:Ee; cbn [negb]; rewrite ?andb_false_r, ?andb_true_r.
+      - destruct (o_nm_theta K _ _ _ _) eqn:En; [reflexivity |].
+        destruct searches_cannot_fail; [reflexivity |]. exfalso. exact (H3 eq_refl e eq_refl En).
+      - destruct cfg_checks_total_reflection eqn:Ft; [reflexivity |].
+        destruct searches_cannot_fail eqn:Fs; [| exfalso; apply (H2 eq_refl eq_refl); reflexivity].
+        destruct (o_nm_theta K _ _ _ _); reflexivity. }
     destruct (theta_step c signal pp) as [cs | |]; cbn [bind is_panic] in *; try reflexivity; try discriminate.
     unfold Config.idler_step. destruct (c_idler c) as [| ic].
     - unfold idler_optimum. rewrite Hle. destruct (o_idler_theta K _ _ _ _); reflexivity.
@@ -266,8 +261,8 @@ Section Rules.
   Lemma beam_of_cfg_panic pol b cs s : beam_of_cfg o K pol b cs = Panic s -> s = SiteNelderMeadUnwrap.
   Proof.
     unfold beam_of_cfg, set_theta_external.
-    destruct (bc_theta_deg b), (bc_theta_ext_deg b); try discriminate. flag_cases; try discriminate.
-    destruct (o_snell_inv K _ _ _); try discriminate. intros H; inversion H; reflexivity.
+    destruct (bc_theta_deg b), (bc_theta_ext_deg b); try discriminate.
+    destruct (o_snell_inv K _ _ _); flag_cases; try discriminate; intros H; inversion H; reflexivity.
   Qed.
 
   Lemma poling_step_panic c signal s : poling_step c signal = Panic s ->
@@ -289,11 +284,10 @@ Section Rules.
     s = SiteNelderMeadUnwrap \/ (le_pump signal (cfg_pump c) = true /\ s = SiteOptThetaUnwrap).
   Proof.
     unfold Config.theta_step. destruct (is_auto _); try discriminate. destruct (is_pol_off pp); try discriminate.
-    unfold optimum_theta, ext_defined. destruct (o_snell_ext K _ _); flag_cases; cbn [bind]; try discriminate.
-    - destruct (le_pump signal (cfg_pump c)); cbn [bind].
-      + intros H; inversion H. right; split; reflexivity.
-      + destruct (o_nm_theta K _ _ _ _); cbn [bind]; try discriminate. intros H; inversion H. left; reflexivity.
-    - intros H; inversion H. left; reflexivity.
+    unfold optimum_theta, ext_defined.
+    destruct (le_pump signal (cfg_pump c)); destruct (o_snell_ext K _ _); flag_cases; cbn [bind]; try discriminate;
+      repeat match goal with |- context [o_nm_theta K ?a ?b ?c0 ?d] => destruct (o_nm_theta K a b c0 d) end;
+      flag_cases; cbn [bind]; try discriminate; intros H; inversion H; auto.
   Qed.
 
   Lemma idler_step_panic c signal cs pp s : idler_step c signal cs pp = Panic s -> s = SiteNelderMeadUnwrap.
